@@ -145,35 +145,8 @@ def r2(repo, res):
     res.ob("C19.R2", f, f, k3 != "raise" and len(o3) == 6, expected="with reads on both sides the six (gene part, region) cells are normalised", found=f"{k3}; {len(o3)} cells",
            key="normalises-otherwise")
 
-    # (b) Sample.__init__: normalisation and diploid guard run whenever there is a neutral region
-    g = repo.func("sam::Sample.__init__")
-    res.analysed(g)
-    cg = cfg_of(g)
-    norm = find_calls(g, "_normalize_coverage")
-    res.floor("C19.R2", "normalisation call in Sample.__init__", len(norm), 1)
-    for kind in ["sam", "dump", ""]:
-        removed = cg.prune(decide_with({"self.kind": kind, "self.profile.cn_region": CN(),
-                                        "self.profile": CNProfile()}))
-        for call in norm:
-            n = cg.node_of(call)
-            ok = cg.is_reachable(n, removed) and cg.dominates(n, cg.exit, removed)
-            res.ob("C19.R2", g, call, ok,
-                   expected="with a neutral region, every normal return of Sample.__init__ passes normalisation",
-                   found="dominates exit" if ok else "some path to return skips it",
-                   key=f"normalize-dominates-exit|kind={kind}")
-        # the diploid guard
-        raises = [n for n in cg.nodes if n.kind == "stmt" and isinstance(n.ast, ast.Raise)
-                  and "diploid_avg_coverage" in _guard_text(cg, n.id, removed)]
-        pts = [{"d": 0.0}, {"d": 1.0}, {"d": 1.99}, {"d": 2.0}, {"d": 30.0}]
-        gs = exiting_guards(cg, cg.exit, removed, kinds=("raise",))
-        tab = guard_table(gs, pts, lambda p: {"self.coverage.diploid_avg_coverage()": p["d"],
-                                              "self.profile.cn_region": CN()})
-        bad = [p for p, fired in zip(pts, tab) if p["d"] < 2 and not fired]
-        res.ob("C19.R2", g, g, not bad and bool(raises),
-               expected="a raising guard on diploid_avg_coverage() < 2 dominates the normal return",
-               found=("ok: " if not bad else f"no guard fires at {bad[0]}; ") + fmt_tests(gs),
-               clause="the copy-number-neutral region is (nearly) empty => error",
-               key=f"diploid-guard|kind={kind}")
+    # (b) Sample.__init__: decided by folding the constructor whole (r2_constructor); the former CFG-dominance form of this rule is retired --
+    #     it fired on a behaviour-preserving rewrite of the constructor (dispatch table of nested readers, early return)
 
 
 def r2_constructor(repo, res):
